@@ -33,9 +33,25 @@
 (*               metric was updated, -1 = never updated                    *)
 (*   sys[r]      system usage reported by the node metric                  *)
 (*   apps        << [prio, use[r]] >>  host applications                   *)
-(*   pods        << [prio, qos, phase, req[r], metric, use[r], numa] >>    *)
+(*   pods        << [prio, qos, phase, term, req[r], metric, use[r], numa] >>*)
+(*               term = TRUE: the pod is being deleted (deletionTimestamp  *)
+(*               set, still Running/Pending during its grace period).  The *)
+(*               statement counts every pod that has not terminated: NO    *)
+(*               predicate below reads term (Active is decided by the      *)
+(*               phase alone); the attribute exists so that the drivers    *)
+(*               produce such pods and Dominates keeps it fixed.           *)
+(*               numa = NUMA ids of the pod's resource-status annotation;  *)
+(*               ids that do not exist on the node (< 0 or >= number of    *)
+(*               zones) bind the pod nowhere and are ignored (NumaOf).     *)
 (*   dangling    << [prio, use[r]] >>  metrics of pods not in the list     *)
 (*   zones       << [cpu, mem] >>      NUMA zone capacities (<<>> = none)  *)
+(*                                                                         *)
+(* Part 1d  reconciler level (what is PUBLISHED on the Node object):       *)
+(*   input = batch input + nm ("present" | "missing": the NodeMetric       *)
+(*   object does not exist) + diff (resourceDiffThreshold in percent);     *)
+(*   PubOK(i, pub, exact): missing / stale metric => withdrawn; otherwise  *)
+(*   (when the node object must carry the last calculation) the same       *)
+(*   bounds as BatchOutOK.  ReconImpl: transcription of the node writer.   *)
 (***************************************************************************)
 EXTENDS Integers, Sequences, FiniteSets
 
@@ -62,6 +78,8 @@ RangeOf(s) == {s[k] : k \in 1..Len(s)}
 \* priority class in effect: explicit class, else derived from the QoS class (BE -> batch, others -> prod)
 EffPrio(p) == IF p.prio # "none" THEN p.prio ELSE IF p.qos = "BE" THEN "batch" ELSE "prod"
 IsHP(prio) == prio \notin {"batch", "free"}          \* high priority w.r.t. batch = not batch / free
+\* a pod counts until it has terminated (phase Succeeded / Failed); a pod that is being deleted (p.term) still
+\* holds its resources during its grace period and counts like any other
 Active(p)  == p.phase \in {"Running", "Pending"}
 EffPol(i, r) == IF i.pol[r] = "" THEN "usage" ELSE i.pol[r]
 
@@ -106,8 +124,10 @@ Bound(i, r) ==
 Stale(i) == i.age < 0 \/ i.age > i.degrade * 60
 
 \* ---- NUMA zones.  A pod bound to k zones is charged 1/k in each of them, an unbound pod (and system usage,
-\* reservation, dangling metrics) 1/Z in every zone.  To stay in the integers both sides are multiplied by
-\* L = lcm(1..Z).
+\* reservation, dangling metrics) 1/Z in every zone.  Only zones that exist on the node count: an annotation id
+\* outside 0..Z-1 binds the pod nowhere, so k is the number of EXISTING zones listed and a pod listing only
+\* non-existing ids is unbound - whatever the annotation says, the pod's whole charge is distributed over the
+\* node's zones (nothing vanishes).  To stay in the integers both sides are multiplied by L = lcm(1..Z).
 Lcm(Z) == CASE Z = 1 -> 1 [] Z = 2 -> 2 [] Z = 3 -> 6 [] Z = 4 -> 12
 NumaOf(p, Z) == {n \in RangeOf(p.numa) : n >= 0 /\ n < Z}
 InZone(p, z, Z) == NumaOf(p, Z) = {} \/ (z - 1) \in NumaOf(p, Z)
@@ -152,6 +172,7 @@ Dominates(j, i) ==
   /\ Len(j.pods) = Len(i.pods)
   /\ \A k \in 1..Len(i.pods) :
        /\ j.pods[k].prio = i.pods[k].prio /\ j.pods[k].qos = i.pods[k].qos /\ j.pods[k].phase = i.pods[k].phase
+       /\ j.pods[k].term = i.pods[k].term
        /\ j.pods[k].metric = i.pods[k].metric /\ j.pods[k].numa = i.pods[k].numa
        /\ GeAll(j.pods[k].req, i.pods[k].req) /\ GeAll(j.pods[k].use, i.pods[k].use)
   /\ Len(j.dangling) = Len(i.dangling)
@@ -192,7 +213,7 @@ MonoOK(prev, new) ==
 (*   cap, alloc, anno, sys, apps, degrade, age  as above                   *)
 (*   usage  [has, cpu, mem]   node usage (has = FALSE: not reported)       *)
 (*   prodrec [has, cpu, mem]  prod-reclaimable metric                      *)
-(*   pods   << [prio, qos, phase, req[r]] >>                               *)
+(*   pods   << [prio, qos, phase, term, req[r]] >>   (term: see above)     *)
 (*   mthr[r] mid threshold percent, upct unallocated percent,              *)
 (*   mode "" | "static", spct[r] static reserved percent                   *)
 (* Bounds: 0 <= mid <= cap*mthr%;  static: <= cap*spct%;  otherwise        *)
@@ -227,6 +248,7 @@ MidDominates(j, i) ==
   /\ Len(j.pods) = Len(i.pods)
   /\ \A k \in 1..Len(i.pods) :
        /\ j.pods[k].prio = i.pods[k].prio /\ j.pods[k].qos = i.pods[k].qos /\ j.pods[k].phase = i.pods[k].phase
+       /\ j.pods[k].term = i.pods[k].term
        /\ GeAll(j.pods[k].req, i.pods[k].req)
 MidRaiseOK(m, e) ==
   /\ e.by.cpu >= 0 /\ e.by.mem >= 0
@@ -243,6 +265,39 @@ MidApplyRaise(m, e) ==
     [] e.what = "app"   -> [m EXCEPT !.apps[e.k].use = AddRL(@, e.by)]
     [] e.what = "usage" -> [m EXCEPT !.usage = AddRL(@, e.by)]
 MidMonoOK(prev, new) == \A r \in Res : Amount(new, r) <= Amount(prev, r)
+
+(***************************************************************************)
+(* Part 1d.  Reconciler level: what the node object carries after one      *)
+(* NodeResourceReconciler.Reconcile.                                       *)
+(*   i   = batch input record + nm ("present" | "missing") + diff (0..100) *)
+(*   pub = [alloc |-> [cpu |-> [has, q], mem |-> [has, q]],                *)
+(*          cap   |-> [cpu |-> [has, q], mem |-> [has, q]]]                *)
+(*         batch-cpu / batch-memory in node.status.allocatable / capacity  *)
+(* "stale node metrics withdraw the resource instead of freezing an old    *)
+(* value": after a reconcile that found no NodeMetric object, one that was *)
+(* never updated or one older than the degrade time, the node publishes    *)
+(* nothing (resource absent, or zero).  With a fresh metric the published  *)
+(* amounts obey the bounds of part 1b whenever the node object must carry  *)
+(* the last calculation (exact): first reconcile of this controller, no    *)
+(* hysteresis configured (diff = 0), or nothing was published before (a    *)
+(* resource that appears is always written).  In between the node writer   *)
+(* may keep a value that differs by at most diff percent - the statement   *)
+(* says nothing about that hysteresis, so only non-negativity is demanded. *)
+(***************************************************************************)
+Sides == {"alloc", "cap"}
+RStale(i) == i.nm = "missing" \/ Stale(i)
+PubAbsent(pub, r) == \A sd \in Sides : ~pub[sd][r].has \/ pub[sd][r].q = 0
+PubWithdrawn(pub) == \A r \in Res : PubAbsent(pub, r)
+PubNonNegOK(pub)  == \A sd \in Sides, r \in Res : pub[sd][r].has => pub[sd][r].q >= 0
+PubStaleOK(i, pub) == RStale(i) => PubWithdrawn(pub)
+PubBoundOK(i, pub) ==
+  \A sd \in Sides, r \in Res : pub[sd][r].has =>
+     /\ pub[sd][r].q <= Bound(i, r)
+     /\ i.pct[r] >= 0 => pub[sd][r].q <= PctFloor(i.cap[r], i.pct[r])
+PubOK(i, pub, exact) ==
+  /\ PubNonNegOK(pub)
+  /\ PubStaleOK(i, pub)
+  /\ (~RStale(i) /\ exact) => PubBoundOK(i, pub)
 
 (***************************************************************************)
 (* Part 2.  Algorithm transcription (model only).                          *)
@@ -305,6 +360,23 @@ BatchImpl(i) ==
   ELSE [cpu |-> [reset |-> FALSE, has |-> TRUE, q |-> ImplNode(i, "cpu")],
         mem |-> [reset |-> FALSE, has |-> TRUE, q |-> ImplNode(i, "mem")],
         zones |-> [z \in 1..Len(i.zones) |-> [cpu |-> ImplZone(i, "cpu", z), mem |-> ImplZone(i, "mem", z)]]]
+
+\* reconciler (Reconcile -> calculateNodeResource -> updateNodeResource) for the batch resources.
+\* A missing NodeMetric object is handed to the plugins as an empty one (never updated): they degrade.
+\* item = result of Plugin.Calculate for one resource; prev = [has, q] on the node before;
+\* expired = the last successful sync of this controller is unknown or older than updateTimeThresholdSeconds
+ReconItems(i) == BatchImpl(IF i.nm = "missing" THEN [i EXCEPT !.age = -1] ELSE i)
+Prepared(item) == IF item.reset \/ ~item.has THEN [has |-> FALSE, q |-> 0] ELSE [has |-> TRUE, q |-> item.q]
+Abs(x) == IF x >= 0 THEN x ELSE -x
+QDiff(old, new, diff) ==        \* util.IsResourceDiff
+  \/ old.has # new.has
+  \/ old.has /\ 100 * Abs(new.q - old.q) > old.q * diff
+ReconImpl(i, prev, expired) ==  \* prev, result: [cpu |-> [has, q], mem |-> [has, q]] (allocatable = capacity)
+  LET items == ReconItems(i)
+      want  == [r \in Res |-> Prepared(items[r])]
+      sync  == expired \/ \E r \in Res : QDiff(prev[r], want[r], i.diff)
+  IN IF sync THEN want ELSE prev
+PubOf(n) == [alloc |-> n, cap |-> n]
 
 \* mid tier (CalculateMidResourceByStaticMode / CalculateMidResourceByPolicy)
 MidImplRes(m, r) ==
